@@ -378,6 +378,19 @@ def check(pid, tier, seed, replay=None, only_law=None, scale=1.0):
     active = [k["id"] for k in known if k.get("status") == "known"]
 
     if replay:
+        txt = open(replay).read()
+        m = re.search(r"^shardrun seed=(\d+) n=(\d+) shard=(\d+)/(\d+)", txt, flags=re.M)
+        if m:
+            law = re.search(r"^law (\S+)", txt, flags=re.M).group(1)
+            tmpd = tempfile.mkdtemp(prefix="replay-%s-" % pid, dir=CACHE)
+            r = run_job((exe, law, int(m.group(2)), int(m.group(1)), int(m.group(3)), int(m.group(4)), tmpd, active, 7200))
+            failed = r["rc"] != 0
+            print(tail(r["log"], 30))
+            shutil.rmtree(tmpd, ignore_errors=True)
+            if failed:
+                print("VIOLATION property=%s replay=%s" % (pid, replay))
+                return 1
+            return 0
         verdict, out = run_replay(exe, replay, active)
         print(out)
         if verdict in ("fail", "died"):
@@ -431,6 +444,7 @@ def check(pid, tier, seed, replay=None, only_law=None, scale=1.0):
                 jobs.append((exe, l["name"], per, s, k, ns, tmp, active, 7200))
     # heavy laws first
     results = []
+    jobmap = {(j[1], j[4]): j for j in jobs}
     with cf.ThreadPoolExecutor(NCPU) as ex:
         for r in ex.map(run_job, jobs):
             results.append(r)
@@ -477,7 +491,24 @@ def check(pid, tier, seed, replay=None, only_law=None, scale=1.0):
                 msg = [ln[8:] for ln in open(rp).read().splitlines() if ln.startswith("# fail: ")]
                 violations.append((r["law"], rp, " ".join(msg)[:600]))
             else:
-                machinery_errors.append("FLAKY replay %s: %s" % (rp, oks))
+                # the minimal case passes in a fresh process: the failure may depend on state left by earlier cases of the same
+                # worker (static / global state in the library). Re-run the very same worker twice: if it fails again both times
+                # the failure is a deterministic function of (law, seed, count, shard) and that run is the reproducible unit.
+                j = jobmap[(r["law"], r["shard"])]
+                sub = os.path.join(tmp, "rerun-%s-%d" % (r["law"], r["shard"]))
+                again = []
+                for t in range(2):
+                    d2 = "%s-%d" % (sub, t)
+                    os.makedirs(d2, exist_ok=True)
+                    again.append(run_job(j[:6] + (d2,) + j[7:]))
+                if all(a["rc"] == 1 and os.path.exists(a["fail"]) for a in again):
+                    srp = os.path.join(OUT, "replays", pid, "new", "%s-shardrun-%d-%d.case" % (r["law"], j[3] % 100000, r["shard"]))
+                    with open(srp, "w") as f:
+                        f.write("law %s\nshardrun seed=%d n=%d shard=%d/%d\n# fail: fails only after the earlier cases of the same worker (state carried across cases); the minimal case alone passes\n" % (r["law"], j[3], j[2], j[4], j[5]))
+                        f.write("".join("# " + ln + "\n" for ln in open(rp).read().splitlines() if ln.startswith("# ")))
+                    violations.append((r["law"], srp, "history-dependent failure (reproduced by re-running the worker): " + " ".join(ln[8:] for ln in open(rp).read().splitlines() if ln.startswith("# fail: "))[:400]))
+                else:
+                    machinery_errors.append("FLAKY replay %s: %s" % (rp, oks))
         elif os.path.exists(r["crash"]) or os.path.exists(r["hang"]) or r["rc"] == -999:
             is_hang = not os.path.exists(r["crash"])
             src = r["crash"] if os.path.exists(r["crash"]) else r["hang"]
